@@ -269,13 +269,28 @@ func (m *Monitors) checkPace(a *Actor) {
 	}
 	evs := m.vcEvents[a.Idx]
 	m.vcEvents[a.Idx] = nil
-	if uint64(len(evs)) != uint64(cur.view-prev.view) {
-		m.violate("C07", "viewchange-signal-count", "%s: view went from %d to %d but %d view-change events were signalled", a.Name(), prev.view, cur.view, len(evs))
-	} else {
-		for i, e := range evs {
-			if e.View != prev.view+hotstuff.View(i+1) {
-				m.violate("C07", "viewchange-signal-order", "%s: view-change events %v do not announce the views %d..%d one by one", a.Name(), evs, prev.view+1, cur.view)
-				break
+	// every change of the current view must be signalled to the node's own components: at least one
+	// ViewChangeEvent, announcing views inside (prev, cur] in increasing order, the last one announcing the
+	// view the node is now in. (A replica may legitimately enter several views at once when it catches up
+	// with a certificate from a later view; one event per entered view is not demanded.)
+	if cur.view == prev.view {
+		if len(evs) != 0 {
+			m.violate("C07", "viewchange-signal-spurious", "%s: %d view-change events signalled but the view stayed %d", a.Name(), len(evs), cur.view)
+		}
+	} else if cur.view > prev.view {
+		if len(evs) == 0 {
+			m.violate("C07", "viewchange-not-signalled", "%s: view went from %d to %d without any view-change event", a.Name(), prev.view, cur.view)
+		} else {
+			lastV := prev.view
+			okOrder := true
+			for _, e := range evs {
+				if e.View <= lastV || e.View > cur.view {
+					okOrder = false
+				}
+				lastV = e.View
+			}
+			if !okOrder || evs[len(evs)-1].View != cur.view {
+				m.violate("C07", "viewchange-signal-order", "%s: view went from %d to %d but the view-change events announce %v", a.Name(), prev.view, cur.view, evs)
 			}
 		}
 	}
